@@ -95,10 +95,14 @@ pub fn remaining_budget_s() -> u64 {
     budget.saturating_sub(start.elapsed().as_secs())
 }
 
+/// a check made of two engines gives the first one only a share of the wall-clock budget
+pub static PHASE_LIMIT_PERCENT: std::sync::atomic::AtomicU64 = std::sync::atomic::AtomicU64::new(100);
+
 pub fn over_budget() -> bool {
     static START: std::sync::OnceLock<std::time::Instant> = std::sync::OnceLock::new();
     let start = START.get_or_init(std::time::Instant::now);
     let default = if std::env::var("VERIF_TIER").map(|t| t == "thorough").unwrap_or(false) { 2700 } else { 480 };
     let budget: u64 = std::env::var("VERIF_BUDGET_S").ok().and_then(|s| s.parse().ok()).unwrap_or(default);
-    start.elapsed().as_secs() > budget
+    let pct = PHASE_LIMIT_PERCENT.load(std::sync::atomic::Ordering::Relaxed);
+    start.elapsed().as_secs() > budget * pct / 100
 }
